@@ -123,11 +123,17 @@ func vp_C15_send_join_pseudo() {
 
 	mapping := MXIDMapping{UserRoomKey: sid, UserID: user}
 	mappingKey := ed25519.PrivateKey(privY)
-	goodMapping := vpNondetBool("mapping_signature_good")
-	if !goodMapping {
+	// the mapping is signed by the user's server, by somebody else under that server's name, or not at all
+	mappingSig := vpChoice("mapping_signature", "good", "bad", "none", "empty-object")
+	goodMapping := mappingSig == "good"
+	if mappingSig == "bad" {
 		mappingKey = ed25519.PrivateKey(privBad)
 	}
-	vpAssume(mapping.Sign("y", "ed25519:1", mappingKey) == nil)
+	if mappingSig == "good" || mappingSig == "bad" {
+		vpAssume(mapping.Sign("y", "ed25519:1", mappingKey) == nil)
+	} else if mappingSig == "empty-object" {
+		mapping.Signatures = map[spec.ServerName]map[KeyID]spec.Base64Bytes{}
+	}
 	membership := vpChoice("membership", spec.Join, spec.Leave)
 	content, err := json.Marshal(map[string]interface{}{"membership": membership, "mxid_mapping": mapping})
 	vpAssume(err == nil)
